@@ -306,6 +306,23 @@ func (t *Table) LeftOptionalJoin(t2 *Table) error {
 		return nil
 	}
 	if disjointBindings(t.mbs, t2.mbs) {
+		if len(t2.Data) == 0 {
+			// There is nothing to join with. Being optional, the rows of the
+			// left table are kept and the new bindings are left unbound.
+			t.mu.Lock()
+			defer t.mu.Unlock()
+			var nbs []string
+			for _, b := range t2.AvailableBindings {
+				if !t.mbs[b] {
+					nbs = append(nbs, b)
+				}
+			}
+			t.unsafeAddBindings(nbs)
+			for i, r := range t.Data {
+				t.Data[i] = extendRow(r, t2.mbs)
+			}
+			return nil
+		}
 		// The tables has nothing in commnon. Hence, we are going to treat it
 		// as a regular cross product.
 		return t.DotProduct(t2)
